@@ -443,6 +443,8 @@ std::pair<void*,size_t> splinetable<Alloc>::write_fits_mem() const{
 	
 	try{
 		fits_create_memfile(&fits, &buf, &memsize, FITS_blocksize, realloc, &error);
+		if (error != 0) //there is no handle to write to or to close
+			throw std::runtime_error("CFITSIO failed to create a memory 'file'");
 		
 		struct fits_cleanup{
 			fitsfile* fits;
